@@ -333,6 +333,9 @@ func (e *Exec) execBinOp(x *ssa.BinOp) Val {
 			e.vc.Assume(True, Eq(StrLen(r), BVAdd(StrLen(a), StrLen(b))))
 			e.vc.Assume(True, App("str_ok", SBool, r))
 			e.vc.Assume(True, Eq(r, App("strcat", SStr, a, b)))
+			// sequence-level fact: the bytes of a concatenation
+			sq := func(t *Term) *Term { return App("bseq.of", "BSeq", StrArr(t), bv64zero, StrLen(t)) }
+			e.vc.Assume(True, Eq(sq(r), App("seqcat", "BSeq", sq(a), sq(b))))
 			return r
 		case token.EQL:
 			return e.strEq(a, b)
@@ -524,10 +527,12 @@ func (e *Exec) execConvert(x *ssa.Convert) Val {
 	case isString(from) && isRuneSlice(to):
 		s := e.term(x.X)
 		r := e.allocRef("runes")
-		ln := e.vc.Fresh("nrunes", BV(64))
+		// the runes of a string are an uninterpreted function of its bytes
+		sq := App("bseq.of", "BSeq", StrArr(s), bv64zero, StrLen(s))
+		ln := e.vc.Define("nrunes", App("runes.len", BV(64), sq))
 		e.vc.Assume(True, And(SGe(ln, bv64zero), SLe(ln, StrLen(s))))
 		n, hs := elemHeap(types.Typ[types.Rune])
-		e.heapGet(n, hs)
+		e.heapSet(n, Store(e.heapGet(n, hs), r, App("runes.arr", ArraySort(BV(64), BV(32)), sq)))
 		return MkSlice(r, bv64zero, ln, ln)
 	case isRuneSlice(from) && isString(to):
 		s := e.term(x.X)
@@ -560,6 +565,8 @@ func (e *Exec) bytesToString(b *Term) *Term {
 	body := Implies(And(SGe(k, bv64zero), SLt(k, SlLen(b))), Eq(Select(StrArr(r), k), Select(arr, BVAdd(SlOff(b), k))))
 	e.vc.Assume(True, Forall([][2]string{{"k", BV(64)}}, body, Select(StrArr(r), k)))
 	e.vc.Assume(True, Eq(r, App("strof", SStr, e.vc.Define("arr", arr), SlOff(b), SlLen(b))))
+	// sequence-level fact: the string's bytes are the slice's bytes
+	e.vc.Assume(True, Eq(App("bseq.of", "BSeq", StrArr(r), bv64zero, StrLen(r)), e.bseqOf(b)))
 	return r
 }
 
